@@ -25,10 +25,10 @@ NoOp == [op |-> "none", k |-> 0, n |-> 0, st |-> "idle", res |-> FALSE]
 KeysIn(S) == {x[1] : x \in S}                 \* set elements are <<key, node id>>
 TInit == TLCSet(1, 1) /\ l = 1 /\ set = {} /\ pend = [p \in {} |-> NoOp] /\ views = <<>>
 Mark == TLCSet(1, IF TLCGet(1) < l' THEN l' ELSE TLCGet(1))
-Step(e) == l <= N /\ Ev.e = e /\ l' = l + 1 /\ Mark
-TReset == /\ l <= N /\ Ev.e \in {"SlInit", "WrInit"} /\ l' = l + 1 /\ Mark
+Step(e) == l <= N /\ Ev.e = e /\ l' = l + 1
+TReset == /\ l <= N /\ Ev.e \in {"SlInit", "WrInit"} /\ l' = l + 1
           /\ set' = {} /\ pend' = [p \in {Ev.procs[i] : i \in 1..Len(Ev.procs)} |-> NoOp] /\ views' = <<>>
-TSkip == /\ l <= N /\ Ev.e \in {"S", "SlEnd", "Quiesce", "WrEnd", "M", "Closed", "Fault", "ItCall", "ItPos"} /\ l' = l + 1 /\ Mark /\ UNCHANGED <<set, pend, views>>
+TSkip == /\ l <= N /\ Ev.e \in {"S", "SlEnd", "Quiesce", "WrEnd", "M", "Closed", "Fault", "ItCall", "ItPos"} /\ l' = l + 1 /\ UNCHANGED <<set, pend, views>>
 TCall == /\ Step("Call") /\ pend[Ev.p].st = "idle"
          /\ pend' = [pend EXCEPT ![Ev.p] = [op |-> Ev.op, k |-> Ev.k, n |-> Ev.n, st |-> "called", res |-> FALSE]]
          /\ UNCHANGED <<set, views>>
@@ -60,6 +60,9 @@ TWalk == /\ Step("Walk") /\ AllIdle /\ ItemsMatch
          /\ ("count" \in DOMAIN Ev => Ev.count = Cardinality(set) /\ Ev.itemscount = Cardinality(set))
          /\ views' = (IF "sn" \in DOMAIN Ev THEN [s \in (DOMAIN views) \cup {Ev.sn} |-> IF s = Ev.sn THEN Ev.items ELSE views[s]] ELSE views)
          /\ UNCHANGED <<set, pend>>
+(* churn scenarios: the pinned snapshot's content is recorded without a call/return history *)
+TView == /\ Step("View") /\ Ev.count = Len(Ev.items)
+         /\ views' = [s \in (DOMAIN views) \cup {Ev.sn} |-> IF s = Ev.sn THEN Ev.items ELSE views[s]] /\ UNCHANGED <<set, pend>>
 (* a reader's scan / visit of an open snapshot, concurrent with writers: exactly the snapshot's content (C01) *)
 TRScan == /\ Step("RScan") /\ Ev.sn \in DOMAIN views /\ Ev.items = views[Ev.sn] /\ UNCHANGED <<set, pend, views>>
 (* a backup of an open snapshot taken while writers, readers and GC were running, restored into a fresh
@@ -71,7 +74,8 @@ TPhys == /\ Step("Phys") /\ AllIdle /\ ItemsMatch
          /\ Ev.marked = 0 /\ Ev.softdel = 0 /\ Ev.nodes = Len(Ev.items) /\ Ev.statmem = Ev.walkmem
          /\ UNCHANGED <<set, pend, views>>
 TDone == l = N + 1 /\ UNCHANGED lvars
-TNext == TReset \/ TSkip \/ TCall \/ (\E p \in DOMAIN pend : Lin(p)) \/ TRet \/ TWalk \/ TRScan \/ TRestore \/ TPhys \/ TDone
+(* Mark comes last: the high-water register then names the first line that no explored state could consume *)
+TNext == (TReset \/ TSkip \/ TCall \/ (\E p \in DOMAIN pend : Lin(p)) \/ TRet \/ TWalk \/ TView \/ TRScan \/ TRestore \/ TPhys \/ TDone) /\ Mark
 TSpec == TInit /\ [][TNext]_lvars
 NotAccepted == l # N + 1
 Post == PrintT(<<"HIGHWATER", TLCGet(1)>>)
